@@ -108,7 +108,9 @@ class FakeSocket:
     def getpeername(self):
         if self.state == "closed":
             raise oserror(errno.EBADF)
-        if self.raddr is None or self.state not in ("connected",):
+        if self.raddr is None or self.state not in ("connected",) or (self.reset and self.reset_seen is not None and self.net.strict_peername):
+            # Linux: once the peer's RST has arrived the socket is in CLOSE state and getpeername() fails with ENOTCONN,
+            # even while data received before the RST is still readable
             raise oserror(errno.ENOTCONN)
         return self.raddr
 
@@ -403,6 +405,7 @@ class SimNet:
         self.bind_fail = None       # errno for the next bind(), one-shot
         self.errno_one_shot = False # injected errnos do not reset the connection
         self.fresh_ports = False    # client ports are never reused
+        self.strict_peername = True   # getpeername() on a reset connection fails (ENOTCONN) as on Linux
         self.current_owner = None
         self.ports = list(ports)
         self._port_next = 0
